@@ -13,7 +13,7 @@ QUANTIFIER: {quant}
 YOUR TASK: make a small, realistic change to the library source (something a developer could plausibly commit as a refactoring, optimisation, or feature tweak) that BREAKS this property while:
   (1) the package still imports, and
   (2) the ENTIRE existing test suite still passes. Run it like this (the package is installed editable from another path, so PYTHONPATH is required to test YOUR worktree):
-        cd {wt} && PYTHONPATH={wt}/src /venv/bin/python -m pytest -q -p no:cacheprovider -x -n 8
+        cd {wt} && PYTHONPATH={wt}/src /venv/bin/python -m pytest -q -p no:cacheprovider -x -n 4
       Expect "423 passed, 22 skipped".
   (3) The breakage must need something SPECIFIC to manifest - {flavour} - NOT something ordinary single use would expose at once. Make it as hard to stumble upon as you can while staying realistic: narrow trigger, ordinary behaviour everywhere else.
 
